@@ -346,6 +346,9 @@ Section Model.
      move-assigned / move-constructed into place: same cell actions *)
   Definition emplace_back (x : V) (s : sv) : res sv := push_back x s.
 
+  (* emplace_back(v[i])  -- repaired: T tmp(v[i]) is built first *)
+  Definition emplace_back_self (i : nat) (s : sv) : res sv := push_back_self i s.
+
   (* append(b, e) (private), range not aliasing the vector; returns the index
      of the iterator it returns  -- repaired *)
   Definition append (vs : list V) (s : sv) : res (sv * nat) :=
@@ -519,6 +522,7 @@ Section Model.
   | PushBack (t : bool) (x : V)
   | PushBackSelf (t : bool) (i : nat)
   | EmplaceBack (t : bool) (x : V)
+  | EmplaceBackSelf (t : bool) (i : nat)
   | Insert (t : bool) (pos : nat) (l : list V)
   | Resize (t : bool) (n : nat)
   | Reserve (t : bool) (n : nat)
@@ -557,6 +561,7 @@ Section Model.
     | PushBack t x => upd t st (push_back x (target t st))
     | PushBackSelf t i => upd t st (push_back_self i (target t st))
     | EmplaceBack t x => upd t st (emplace_back x (target t st))
+    | EmplaceBackSelf t i => upd t st (emplace_back_self i (target t st))
     | Insert t pos l =>
       '(s, r) <- insert pos l (target t st) ;;
       Ok (mk_state t s (other t st), Some r)
@@ -579,10 +584,15 @@ Section Model.
   Definition abs (s : sv) : option (list V) :=
     match contents s with Ok l => Some l | Err _ => None end.
 
-  (* arguments the C++ interface requires (positions inside the vector) *)
+  (* arguments the C++ interface requires (positions inside the vector).  The
+     range given to insert is a list of values: as for std::vector
+     ([sequence.reqmts]: i and j are not iterators into a) it must not alias the
+     vector; push_back(v[i]) and emplace_back(v[i]) are legal and are ops of
+     their own *)
   Definition valid_op (o : op) (tgt : list V) : Prop :=
     match o with
     | PushBackSelf _ i => i < length tgt
+    | EmplaceBackSelf _ i => i < length tgt
     | Insert _ pos _ => pos <= length tgt
     | SetAt _ i _ => i < length tgt
     | _ => True
@@ -591,6 +601,7 @@ Section Model.
   Definition valid_op_b (o : op) (tgt : list V) : bool :=
     match o with
     | PushBackSelf _ i => i <? length tgt
+    | EmplaceBackSelf _ i => i <? length tgt
     | Insert _ pos _ => pos <=? length tgt
     | SetAt _ i _ => i <? length tgt
     | _ => true
@@ -600,6 +611,7 @@ Section Model.
     match o with
     | CtorN t _ | CtorFill t _ _ | CtorList t _ | CopyCtor t | MoveCtor t | CopyAssign t
     | MoveAssign t | SelfAssign t | Clear t | PushBack t _ | PushBackSelf t _ | EmplaceBack t _
+    | EmplaceBackSelf t _
     | Insert t _ _ | Resize t _ | Reserve t _ | SetAt t _ _ => t
     end.
 
@@ -620,6 +632,7 @@ Section Model.
     | PushBack _ x => (tgt ++ [x], Some oth, None)
     | PushBackSelf _ i => (tgt ++ [nth i tgt dflt], Some oth, None)
     | EmplaceBack _ x => (tgt ++ [x], Some oth, None)
+    | EmplaceBackSelf _ i => (tgt ++ [nth i tgt dflt], Some oth, None)
     | Insert _ pos l => (firstn pos tgt ++ l ++ skipn pos tgt, Some oth, Some pos)
     | Resize _ n => (firstn n tgt ++ repeat dflt (n - length tgt), Some oth, None)
     | Reserve _ _ => (tgt, Some oth, None)
@@ -762,6 +775,7 @@ Section Pinned.
     | CtorN t n => reconstruct P t st (ctor_n_pinned n)
     | CopyAssign t => upd t st (copy_assign_pinned (target t st) (other t st))
     | PushBackSelf t i => upd t st (push_back_self_pinned i (target t st))
+    | EmplaceBackSelf t i => upd t st (push_back_self_pinned i (target t st))
     | Insert t pos l =>
       '(s, r) <- insert_pinned pos l (target t st) ;;
       Ok (mk_state t s (other t st), Some r)
